@@ -59,8 +59,13 @@ mod harness {
     /// XML text/attribute escaping: no raw < > & " ' survives, and decoding the five entities gives the input back
     #[kani::proof]
     #[kani::unwind(20)]
-    fn h_xml_escape() {
-        let bytes: [u8; 3] = kani::any(); let n: usize = 2;     // concrete length keeps String growth concrete
+    fn h_xml_escape() { check_xml(2); }
+    /// every single ASCII character: complete
+    #[kani::proof]
+    #[kani::unwind(20)]
+    fn h_xml_escape_char() { check_xml(1); }
+    fn check_xml(n: usize) {
+        let bytes: [u8; 3] = kani::any();     // concrete length keeps String growth concrete
         kani::assume(bytes[0] < 0x80 && bytes[1] < 0x80 && bytes[2] < 0x80);
         let mut out = String::new();
         escape_string_xml_buf(ascii(&bytes[..n]), &mut out);
@@ -78,10 +83,19 @@ mod harness {
             k += 1;
         }
         assert!(k == n, "obligation: nothing is dropped");
-        kani::cover!(bytes[0] == b'&' && bytes[1] == b'<');
+        kani::cover!(bytes[0] == b'&' && (n < 2 || bytes[1] == b'<'));
     }
 
     /// YAML 1.1 plain-scalar hazards: a key that an independent YAML parser would read as bool / null / number / date / document marker must NOT be emitted bare
+    /// quick subset: one mixed-case keyword of each family, a number, a date, the empty key
+    #[kani::proof]
+    #[kani::unwind(12)]
+    fn h_yaml_bare_safe_core() {
+        const HAZARD: [&str; 5] = ["Yes", "NULL", "-12", "", "2001-01-01"];
+        let mut i = 0; while i < 5 { assert!(!bare_safe(HAZARD[i]), "obligation: YAML 1.1 keyword / number / date / marker look-alikes are quoted (any letter case)"); i += 1; }
+        assert!(bare_safe("abc"), "obligation: ordinary identifiers stay bare");
+        kani::cover!(i == 5);
+    }
     #[kani::proof]
     #[kani::unwind(18)]
     fn h_yaml_bare_safe() {
